@@ -29,8 +29,8 @@ linear rows without a non-zero coefficient (never checked by the code).  Both ar
 findings; on them the full statement is false: -/
 def neqWitness : IModel := { doms := [[1], [1]], ps := [.neq (.var 0) (.var 1)] }
 
-theorem C01_neq_noop_counterexample :
-    (search neqWitness.n none Policy.fifo 5 neqWitness.ps neqWitness.store).solutions = [[1, 1]] ∧
+theorem C01_neq_checked :
+    (search neqWitness.n none Policy.fifo 5 neqWitness.ps neqWitness.store).solutions = [] ∧
     PK.holds (fun _ => 1) (.neq (.var 0) (.var 1)) = false := by decide
 
 def linZeroWitness : IModel := { doms := [[0, 1]], ps := [.linEq [0] [0] 5] }
